@@ -132,7 +132,12 @@ func (c *wsConn) nextMessage() {
 		return
 	}
 	vhook("reader.msg", c)
-	c.incoming <- r
+	select {
+	case c.incoming <- r:
+	case <-c.exiting:
+		// the main loop has exited (e.g. its context was cancelled) and will
+		// never receive this message
+	}
 }
 
 // nextWriter waits for writeLk and invokes the cb callback with WS message
@@ -752,7 +757,13 @@ func (c *wsConn) readFrame(ctx context.Context, r io.Reader) {
 	}
 
 	vhook("reader.queue", c)
-	c.frameExecQueue <- buf
+	select {
+	case c.frameExecQueue <- buf:
+	case <-c.exiting:
+		// the frame executor stops with the main loop; with a full queue this
+		// send would block for ever
+		return
+	}
 	if len(c.frameExecQueue) > 2*cap(c.frameExecQueue)/3 { // warn at 2/3 capacity
 		log.Warnw("frame executor queue is backlogged", "queued", len(c.frameExecQueue), "cap", cap(c.frameExecQueue))
 	}
